@@ -287,6 +287,15 @@ impl Header {
         if !flags_ok {
             return Err(Error::InvalidHeader);
         }
+        // These packets have neither variable header nor payload
+        if remaining_len != 0
+            && matches!(
+                typ,
+                PacketType::Pingreq | PacketType::Pingresp | PacketType::Disconnect
+            )
+        {
+            return Err(Error::InvalidHeader);
+        }
         Ok(Header {
             typ,
             dup: false,
